@@ -187,6 +187,12 @@ class FormulaMaterializer(metaclass=FormulaMaterializerMeta):
     ) -> Union[ModelMatrix, ModelMatrices]:
         from formulaic import ModelSpec
 
+        # Evaluated and encoded factors are cached per build: they depend on the
+        # specs' state, the rows being dropped and the output type.
+        self.factor_cache = {}
+        self.encoded_cache = {}
+        self.encoder_state_cache = {}
+
         # Prepare ModelSpec(s)
         spec: Union[ModelSpec, ModelSpecs] = ModelSpec.from_spec(
             spec, context=self.layered_context, **spec_overrides
